@@ -87,6 +87,16 @@ def gen_tree(rng, depth, markers):
     return out
 
 
+def resolve_inc(pages, name):
+    """which file an include argument names (independent restatement): the file of exactly that name if there is one; otherwise -
+    the argument may leave the extension out - the file with that name less its extension (the last one in sorted order)"""
+    if name in pages:
+        return name
+    stem = name.rsplit(".", 1)[0] if "." in name.rsplit("/", 1)[-1] else name
+    cands = sorted(f for f in pages if f.rsplit(".", 1)[0] == stem)
+    return cands[-1] if cands else name
+
+
 class C06(core.PropertyCheck):
     id = "C06"
     quick_budget = 4000
@@ -127,6 +137,9 @@ class C06(core.PropertyCheck):
             else:
                 nfiles = rng.randint(1, 6)
                 files = [f"f{i}.rst" for i in range(nfiles)]
+                if rng.random() < 0.25:
+                    # two files that differ only in their extension: an include names ONE of them
+                    files.append("f0.txt")
                 pages = {}
                 for f in ["index.txt"] + files:
                     body = []
@@ -138,12 +151,16 @@ class C06(core.PropertyCheck):
                             body.append({"c": [{"inc": rng.choice(files)}]})
                         else:
                             body.append({"c": []})
+                    if f == "f0.txt":
+                        # the twin is a page of its own (every .txt file is): it holds no include, so that the order in which pages
+                        # are processed plays no role here
+                        body = [{"c": []} for _ in range(rng.randint(0, 2))]
                     pages[f] = body
                 case = {"kind": "expand", "pages": pages}
                 if rng.random() < 0.3:
                     # one of the included files has the shape of a page generated from giza YAML: stored under steps/<name>, its Root
                     # names the YAML file (the include handler cannot see such a page on the file stack; it has its own guard for them)
-                    case["gen"] = rng.choice(files)
+                    case["gen"] = rng.choice([f for f in files if f.endswith(".rst")])   # giza output files are .rst
                 yield case
 
     def shrink_candidates(self, case):
@@ -218,6 +235,7 @@ class C06(core.PropertyCheck):
             return {"exc": None, "model_in": model_in, "diags_again": again, "out": [nested_ids(c) for c in dd.children], "diags": diags, "other_diags": other, "shared": shared,
                     "source_untouched": json.dumps(nested_ids(inc.ast)) == before}
         # expand
+        self._pages = case["pages"]
         pages = []
         counter = [1]
 
@@ -237,7 +255,7 @@ class C06(core.PropertyCheck):
             nodes = [mk(s) for s in body]
             if f == gen:
                 from snooty.page import Page
-                gen_yaml = "steps-" + f.rsplit(".", 1)[0] + ".yaml"
+                gen_yaml = "steps-" + f.replace(".", "-") + ".yaml"
                 pg = Page.create(n.FileId(gen_yaml), f, "", n.Root((0,), nodes, n.FileId(gen_yaml), {}))
                 pg.category = "steps"
                 pages.append(pg)
@@ -265,10 +283,10 @@ class C06(core.PropertyCheck):
                 roots.setdefault(str(node.fileid), []).append(node)
         return {"exc": None, "model_pages": model_pages, "out": out, "diags": diags, "shared": shared}
 
-    @staticmethod
-    def _arg(node):
+    def _arg(self, node):
         a = node.argument[0].value.strip("/")
-        return a[len("steps/"):] if a.startswith("steps/") else a
+        a = a[len("steps/"):] if a.startswith("steps/") else a
+        return resolve_inc(self._pages, a)
 
     def _doc(self, node):
         if isinstance(node, n.Directive) and node.name == "include":
@@ -296,7 +314,7 @@ class C06(core.PropertyCheck):
             i = counter[0]
             counter[0] += 1
             if "inc" in spec:
-                return {"id": i, "inc": spec["inc"]}
+                return {"id": i, "inc": resolve_inc(case["pages"], spec["inc"])}
             return {"id": i, "c": [mk(c) for c in spec["c"]]}
 
         pages = [{"file": f, "body": [mk(s) for s in body]} for f, body in case["pages"].items()]
@@ -361,6 +379,10 @@ class C06(core.PropertyCheck):
         if model["out"] != impl["out"]:
             return f"expansion differs: model {json.dumps(model['out'])[:300]} impl {json.dumps(impl['out'])[:300]}"
         md = sorted([d["file"], d["kind"], d["id"]] for d in model["diags"])
+        if any(f.endswith(".txt") and f != "index.txt" for f in case["pages"]):
+            # a second page (the .txt twin of an include file) is processed on its own too: the model request covers the walk of
+            # index.txt only, the diagnostics of the whole run are judged by the reference of the oracle
+            return None
         if md != impl["diags"]:
             return f"diagnostics differ: model {md} impl {impl['diags']}"
         return None
@@ -381,7 +403,7 @@ class C06(core.PropertyCheck):
                     i = counter[0]
                     counter[0] += 1
                     if "inc" in spec:
-                        return {"id": i, "inc": spec["inc"]}
+                        return {"id": i, "inc": resolve_inc(pages, spec["inc"])}
                     return {"id": i, "c": [number(c) for c in spec["c"]]}
                 ids[f] = [number(s) for s in body]
             want_diags = []
@@ -399,6 +421,10 @@ class C06(core.PropertyCheck):
                 return {"id": node["id"], "c": [trans(f, path, c) for c in node["c"]]}
 
             want = [trans("index.txt", ["index.txt"], c) for c in ids["index.txt"]]
+            for other in pages:
+                if other.endswith(".txt") and other != "index.txt":
+                    for c in ids[other]:
+                        trans(other, [other], c)   # every .txt file is a page of its own: its diagnostics count
             if want != impl["out"]:
                 return "expanded page differs from recursive transclusion"
             if sorted(want_diags) != impl["diags"]:
